@@ -2,6 +2,7 @@ import Martian.Format
 import Martian.FormatExp
 import Martian.FormatCall
 import Driver.Util
+import Driver.C09Call2
 
 /-! Line-protocol handler for property C09 (formatter core). -/
 namespace Driver.C09
@@ -179,6 +180,6 @@ def handle (op : String) (args : List String) : Option String :=
   | "normcall", [c] => do
     let c ← decCall c
     pure (encCall (Martian.FormatCall.normCall c))
-  | _, _ => none
+  | op, args => Driver.C09.handleCall2 op args
 
 end Driver.C09
